@@ -70,9 +70,9 @@ CLAIMS = {
          "Theorem C11_reference_assignment_copies_the_values: for every well-formed list and every shape of the run table, `target = source` (copy form) between element references of equal field sizes in different vectors leaves the target element holding exactly the source's tuple, the source untouched and every byte outside the target element's extent unchanged (AssignThm.v: each step of ElementTraits::assign writes the source byte at the same offset from the element start; RunsThm: the table covers every field; layouts of equally sized elements at storage-aligned addresses are translates). C11_*_table_covers_every_field / _runs_hold_only_*: no field skipped, no non-trivial object moved byte-wise. C11_iterators_are_indices. "
          "PARTIAL: move form, assignment within one vector, swap / iter_swap and rotate / reverse / swap_ranges are modelled as written and decided by the tie: histories of reference assignment in four forms, swap/iter_swap, writes through six access paths incl. structured bindings, iterator batteries on const and mutable iterators, std algorithms, on lists covering every run-table shape up to four fields; content oracle = a Python list of tuples; access paths cross-checked in every observation; static sweep of the run tables.",
          "5 C11"),
- "C12": ("proof (element from reference = deep copy, for every trivially constructible list; swap; moved-from state) + correspondence on element histories over allocator kinds with a content oracle",
-         "Theorem C12_element_from_reference_is_deep_copy: for every well-formed list of trivially copy/move-constructible types, every aligned source position, junk content and construction form the new element's own block holds exactly the source tuple (elem_at at offset 0), its reference is the field table of that tuple, the source bytes are unchanged and the allocation is the rounded-up byte size; swap exchanges contents and (with POCS) allocators; a moved-from element owns nothing. "
-         "PARTIAL: copy/move assignment paths (field-wise, reallocating, stealing, element-wise between unequal allocators), allocator-extended constructors, reference<->element assignment and non-trivial value types are modelled as written (Elem.v) and decided by the tie: element histories on ~55 lists x 8 (quick) / 32 (thorough) allocator kinds incl. assignment into moved-from elements, different varying sizes, default and explicit allocators; per step the element's fields, allocator, block identity and units vs model, a Python content oracle, block-sharing check against all vectors, get<I>/structured bindings/reference-from-element path agreement, element comparisons by content.",
+ "C12": ("proof (element construction, copy construction, copy assignment on both paths, stealing move assignment, swap: the target holds exactly the source's tuple; moved-from state) + correspondence on element histories over allocator kinds with a content oracle",
+         "Theorems C12_*: for every well-formed list of trivially copy/move-constructible types an element constructed from a reference (any aligned source position, junk, copy or move form) owns a fresh block that holds exactly the source tuple with the field table of that tuple, source unchanged, units = rounded-up byte size; copy construction likewise; copy assignment on the re-allocating path into ANY target (moved-from or not, any size) and - for every value-type category and run-table shape - on the field-wise path of FixedSize/plain lists leaves the target holding the source's tuple with the right allocator; stealing move assignment hands over block and tuple; swap exchanges contents and (POCS) allocators; a moved-from element owns nothing. "
+         "PARTIAL: element-wise move assignment between unequal allocators, allocator-extended move, reference<->element assignment and the constructor paths of non-trivial value types are modelled as written (Elem.v) and decided by the tie: element histories on ~55 lists x 8 (quick) / 32 (thorough) allocator kinds incl. assignment into moved-from elements, different varying sizes, default and explicit allocators; per step fields, allocator, block identity and units vs model, a Python content oracle, block-sharing check, get<I>/structured bindings/reference-from-element path agreement, element comparisons by content. Not exercised: the alias cntgs::ContiguousElement (F23).",
          "5 C12"),
  "C15": ("proof (dispatch soundness over a type universe x source forms: stored = T(item); memcpy only where representation-preserving; move counts) + refutation of the pinned rule + correspondence on a catalogue of 640 instantiated cases with an independent conversion oracle",
          "Theorems C15_*: for every stored/source type of the modelled universe (bool, integers and enumerations of every width and signedness, float/double, pointers with base-class offset, trivially copyable classes with converting constructor / conversion operator, a class with user-provided copy/move), every source form (contiguous container, node-based container, generated range, C array, pointer, contiguous iterator, other iterator, move_iterator) x lvalue/rvalue and every length: the stored objects are item by item repr(T(source item)), exactly n of them; MEMCPY_COMPATIBLE implies the conversion keeps the object representation; lvalue ranges are not moved from, rvalue ranges / move_iterators once per consumed item. C15_pinned_rule_refuted: the pinned tree's rule fails (bool <- uint8_t{2}); repaired by a fix commit. "
